@@ -265,6 +265,33 @@ def int_kernel(ck, pkg, kind, r, m, tier):
         _tv_cases.setdefault(pkg, []).append({'kind': 'kernel-expect', 'op': kind, 'a': '%064x' % av, 'b': '%064x' % bv_, 'c': '%064x' % unlimbs([ev.ev(x) for x in outs])})
 
 
+def modsqrt(a, m):
+    """a square root of a modulo the prime m (Tonelli-Shanks), or None"""
+    a %= m
+    if a == 0:
+        return 0
+    if pow(a, (m - 1) // 2, m) != 1:
+        return None
+    if m % 4 == 3:
+        return pow(a, (m + 1) // 4, m)
+    q, s_ = m - 1, 0
+    while q % 2 == 0:
+        q //= 2
+        s_ += 1
+    z = 2
+    while pow(z, (m - 1) // 2, m) != m - 1:
+        z += 1
+    c, x, t, k = pow(z, q, m), pow(a, (q + 1) // 2, m), pow(a, q, m), s_
+    while t != 1:
+        i, t2 = 0, t
+        while t2 != 1:
+            t2 = t2 * t2 % m
+            i += 1
+        b = pow(c, 1 << (k - i - 1), m)
+        x, c, t, k = x * b % m, b * b % m, t * b * b % m, i
+    return x
+
+
 def rand_operand(rng, m, t):
     pats = [0, 1, m - 1, m - 2, 2**64 - 1, 2**64, 2**128 - 1, 2**192, (m - 1) // 2, R % m, (R * R) % m, 2**255 % m]
     if t < len(pats):
@@ -282,10 +309,30 @@ def find_kernel_cex(ck, pkg, kind, r, m, outs):
     cands = []
     Ri = pow(R, -1, m)
     # steering for multiplicative kernels: operands whose pre-subtraction value hits the corners
-    for V in [m - 1, m, m + 1, R - 1, R % (2 * m), 2 * m - 1, m + 2**64, m + 2**128, m + 2**192]:
+    c0_ = R % m
+    corners = [m - 1, m, m + 1, R - 1, R % (2 * m), 2 * m - 1, m + 2**64, m + 2**128, m + 2**192]
+    # results whose pre-subtraction value lies just above 2^256 (value - m = c + d) or has only a high limb on top of a tiny low part
+    corners += [c0_ + d for d in (0, 1, 2, 2**64, 2**128, 2**192, 2**192 + 1)] + [k_ * 2**192 + c_ for k_ in (1, 2, 2**63) for c_ in (0, 1, c0_ - 1)] + [1, 2, c0_ - 1]
+    for V in corners:
         for b in [R % m, 2, m - 1, rng.randrange(1, m)]:
             a = V % m * R % m * pow(b, -1, m) % m
             cands.append((a, b))
+        # squarings: a with a*a/R = V, when V*R is a square (p = 3 mod 4; for the scalar field by Tonelli-Shanks)
+        t_ = V % m * R % m
+        if pow(t_, (m - 1) // 2, m) == 1:
+            ra = modsqrt(t_, m)
+            if ra is not None:
+                cands.append((ra, ra))
+                cands.append((m - ra, m - ra))
+    # additive kernels: sums / differences at the modulus and at the word size
+    for S_ in [m - 1, m, m + 1, m + c0_ - 1, m + c0_, 2**256 - 2, 2**256 - 1, 2**256, 2**256 + 1, 2 * m - 2, 2**255, 2**192, 2**64]:
+        for a_ in (S_ // 2, m - 1, m - 2, S_ - (m - 1), 1, 0):
+            b_ = S_ - a_
+            if 0 <= a_ < m and 0 <= b_ < m:
+                cands.append((a_, b_))
+                cands.append((b_, a_))
+    for a_, b_ in ((0, 1), (0, m - 1), (1, 2), (m - 2, m - 1), (5, 5), (0, 0), (m - 1, 0), (1, 0), (2**64, 2**64 + 1), (2**192, 2**192 + 2**64)):
+        cands.append((a_, b_))
     # conversions and other unary kernels: operands whose image under x -> x*R^e (e = -2..2) is tiny or sits at a word boundary, so that the
     # value before the final conditional subtraction lies just above / below m or 2^256
     c_ = R % m
@@ -327,7 +374,7 @@ def find_kernel_cex(ck, pkg, kind, r, m, outs):
         ok, out = core.go_test(path, pkg=pkg)
         if not ok and 'MISMATCH' in out:
             # every failing operand is handed on: an embedding check turns them into inputs of its own property
-            wit = [a_ for a_, _b in hits] + ([b_ for _a, b_ in hits[:4]] if kind in ('mul', 'add', 'sub') else [])
+            wit = [w_ for a_, b_ in hits for w_ in ((a_, b_) if kind in ('mul', 'add', 'sub') else (a_,))]
             ck.dep_violation(pkg, 'kernel:%s.%s' % (pkg, kind), 'internal/%s kernel %s computes a %s: %s' % (
                 pkg, kind, 'wrong value' if wrong_value[0] else 'non-canonical representative of the right value', [l.strip() for l in out.splitlines() if 'MISMATCH' in l][:1]), path, wit,
                              exposed_as=('%s.%s' % (pkg, kind.replace('self', ''))) if wrong_value[0] else None)
